@@ -27,6 +27,7 @@ type Thread struct {
 	enabled func() bool
 	done    bool
 	Op      string // operation the thread is about to perform (or performed last)
+	Obj     int    // id of the object that operation works on within this execution; 0 = global (depends on everything)
 	quiet   bool   // waiting for quiescence (harness threads only)
 	daemon  bool
 	vc      []int // vector clock
@@ -38,11 +39,23 @@ type PointRec struct {
 	Chosen       int // index into Enabled
 	RunningStill bool
 	Op           string
+	// for the partial-order reduction of e2x: what each enabled thread is about to do, and how much had been logged /
+	// whether the transition that led here made a global observation
+	Pend   []Pending
+	LogLen int
+	Global bool // the transition executed since the previous point read scheduler-wide state (Live)
+}
+
+// Pending is the next visible operation of an enabled thread.
+type Pending struct {
+	Tid int
+	Op  string
+	Obj int
 }
 
 type Race struct {
-	Label        string
-	A, B         string // access descriptions
+	Label string
+	A, B  string // access descriptions
 }
 
 type Exec struct {
@@ -56,15 +69,18 @@ type Exec struct {
 	Races    []Race
 	States   map[uint64]struct{}
 
-	threads  []*Thread
-	cur      *Thread
-	finished chan struct{}
-	active   bool
-	killed   bool
-	wg       sync.WaitGroup
-	mem      map[uintptr]*shadow
-	objClock map[any][]int
+	threads   []*Thread
+	cur       *Thread
+	finished  chan struct{}
+	active    bool
+	killed    bool
+	wg        sync.WaitGroup
+	mem       map[uintptr]*shadow
+	objClock  map[any][]int
 	HashState func() uint64 // optional extra state supplied by the scenario
+	Pruned    bool          // the chooser found every enabled thread asleep (redundant execution, cut short)
+	objID     map[any]int
+	global    bool
 	logHash   uint64
 	keep      []unsafe.Pointer
 }
@@ -151,6 +167,7 @@ func (x *Exec) runThread(t *Thread, body func()) {
 		}
 		t.done = true
 		t.Op = "exit"
+		t.Obj = 0
 		x.schedule(t)
 	}()
 	body()
@@ -198,8 +215,13 @@ func (t *Thread) tick() {
 }
 
 // Point is a scheduling point before a visible operation of the running thread. enabled == nil means the
-// operation never blocks.
-func Point(op string, enabled func() bool) {
+// operation never blocks. The operation counts as global: dependent on every other operation.
+func Point(op string, enabled func() bool) { PointO(op, nil, enabled) }
+
+// PointO is Point for an operation on one shared object (a mutex, a wait group, a connection buffer …): two
+// operations on different objects commute (the code under test is checked to be free of data races, so whatever
+// else the two threads touch before their next point is ordered through such objects).
+func PointO(op string, obj any, enabled func() bool) {
 	x := X
 	if !Active() {
 		return
@@ -207,9 +229,25 @@ func Point(op string, enabled func() bool) {
 	t := x.cur
 	t.enabled = enabled
 	t.Op = op
+	t.Obj = 0
+	if obj != nil {
+		if x.objID == nil {
+			x.objID = map[any]int{}
+		}
+		id, ok := x.objID[obj]
+		if !ok {
+			id = len(x.objID) + 1
+			x.objID[obj] = id
+		}
+		t.Obj = id
+	}
 	x.schedule(t)
 	t.enabled = nil
 }
+
+// Chooser, when set, is asked at every scheduling point; prescribed is the choice the prefix dictates or -1
+// beyond it. It returns the index into rec.Enabled to run, or -1 to cut the execution short (Pruned).
+var Chooser func(x *Exec, rec *PointRec, prescribed int) int
 
 // AwaitQuiescence blocks the calling (harness) thread until no other thread is enabled.
 func AwaitQuiescence() {
@@ -220,6 +258,7 @@ func AwaitQuiescence() {
 	t := x.cur
 	t.quiet = true
 	t.Op = "await-quiescence"
+	t.Obj = 0
 	x.schedule(t)
 	t.quiet = false
 }
@@ -228,6 +267,7 @@ func AwaitQuiescence() {
 func Live() []string {
 	var out []string
 	if Active() {
+		X.global = true // reads the position of every thread
 		for _, t := range X.threads {
 			if !t.done {
 				out = append(out, t.Name+"@"+t.Op)
@@ -322,8 +362,10 @@ func (x *Exec) schedule(self *Thread) {
 		en[0] = id
 	}
 	choice := 0
+	prescribed := -1
 	if n := len(x.Points); n < len(x.Prefix) {
 		choice = x.Prefix[n]
+		prescribed = choice
 		if choice >= len(en) {
 			x.Diverged = fmt.Sprintf("replay divergence at point %d: choice %d of %d enabled (op %s)", n, choice, len(en), self.Op)
 			x.finish()
@@ -334,7 +376,27 @@ func (x *Exec) schedule(self *Thread) {
 			return
 		}
 	}
-	x.Points = append(x.Points, PointRec{Running: self.ID, Enabled: en, Chosen: choice, RunningStill: selfIdx >= 0, Op: self.Op})
+	rec := PointRec{Running: self.ID, Enabled: en, Chosen: choice, RunningStill: selfIdx >= 0, Op: self.Op, LogLen: len(x.Log), Global: x.global}
+	x.global = false
+	if Chooser != nil {
+		rec.Pend = make([]Pending, len(en))
+		for i, id := range en {
+			th := x.threads[id]
+			rec.Pend[i] = Pending{Tid: id, Op: th.Op, Obj: th.Obj}
+		}
+		choice = Chooser(x, &rec, prescribed)
+		if choice < 0 {
+			x.Pruned = true
+			x.finish()
+			if !self.done {
+				<-self.wake
+				panic(killedT{})
+			}
+			return
+		}
+		rec.Chosen = choice
+	}
+	x.Points = append(x.Points, rec)
 	x.States[x.stateHash()] = struct{}{}
 	next := x.threads[en[choice]]
 	if next == self {
@@ -372,7 +434,23 @@ func Choose(n int, label string) int {
 	for i := range en {
 		en[i] = i
 	}
-	x.Points = append(x.Points, PointRec{Running: x.cur.ID, Enabled: en, Chosen: choice, RunningStill: false, Op: "choose:" + label})
+	rec := PointRec{Running: x.cur.ID, Enabled: en, Chosen: choice, RunningStill: false, Op: "choose:" + label, LogLen: len(x.Log), Global: true}
+	x.global = false
+	if Chooser != nil {
+		prescribed := -1
+		if k := len(x.Points); k < len(x.Prefix) {
+			prescribed = choice
+		}
+		choice = Chooser(x, &rec, prescribed)
+		if choice < 0 {
+			x.Pruned = true
+			x.finish()
+			<-x.cur.wake
+			panic(killedT{})
+		}
+		rec.Chosen = choice
+	}
+	x.Points = append(x.Points, rec)
 	return choice
 }
 
@@ -392,7 +470,7 @@ func MapKeys[K comparable, V any](m map[K]V) []K {
 
 // Close closes a channel (a visible operation; release edge for the race check).
 func Close[T any](c chan T) {
-	Point("close", nil)
+	PointO("close", any((<-chan T)(c)), nil)
 	Release(any((<-chan T)(c)))
 	close(c)
 }
